@@ -11,6 +11,7 @@ import (
 	"net"
 	"os"
 	"sync"
+	"sync/atomic"
 	"time"
 )
 
@@ -58,7 +59,7 @@ type Conn struct {
 	self  *end
 	peer  *end
 	Fault Fault
-	ioIdx int
+	ioIdx atomic.Int64 // Read and Write may run concurrently, like on a socket
 	// MaxChunk limits how many bytes one Read returns (0 = everything available).
 	MaxChunk int
 }
@@ -71,8 +72,7 @@ func Pipe(id int) (*Conn, *Conn) {
 }
 
 func (c *Conn) Read(p []byte) (int, error) {
-	idx := c.ioIdx
-	c.ioIdx++
+	idx := int(c.ioIdx.Add(1) - 1)
 	if c.Fault != nil {
 		if n, err, fire := c.Fault("read", idx, p); fire {
 			return n, err
@@ -115,8 +115,7 @@ func (c *Conn) Read(p []byte) (int, error) {
 }
 
 func (c *Conn) Write(p []byte) (int, error) {
-	idx := c.ioIdx
-	c.ioIdx++
+	idx := int(c.ioIdx.Add(1) - 1)
 	if c.Fault != nil {
 		if n, err, fire := c.Fault("write", idx, p); fire {
 			if n > 0 {
